@@ -23,3 +23,104 @@ def import_instances(repo, rep, home, select, new_rule, why=''):
         else:
             rep.undecided(new_rule, i.construct, i.where, i.detail)
     return n
+
+
+_SORTKEY_CACHE = {}
+
+
+def sortkey_model(repo):
+    """The always-sortable key class interpreted on pairs of constants.  Returns (facts, undecided) where facts is a list of
+    (label, ok, detail):
+
+      natural-order:   for operands Python can order, key(a) < key(b) is a < b;
+      total-fallback:  for operands it cannot order (str / int, None / int, tuple / str, two complex numbers) the comparison answers
+                       with a bool, never both ways True, and equal-typed incomparable operands compare False both ways (a stable
+                       sort then keeps their order);
+      no-identity:     no id() is consulted (the allocator history would change the order)."""
+    key = id(repo)
+    if key in _SORTKEY_CACHE and _SORTKEY_CACHE[key][0] is repo:
+        return _SORTKEY_CACHE[key][1]
+    from engine import roles
+    from engine.interp import Interp, Const, TypeV, TupleV, Undecided, Raised, PathLimit
+    m = repo.module('prettyprinter')
+    cname = roles.name(repo, 'sortable_cls')
+    ci = m.classes.get(cname)
+    facts, und = [], []
+    used_id = []
+
+    def p_id(it, a, k, n):
+        used_id.append(getattr(n, 'lineno', 0))
+        return Const(12345)
+
+    def p_str(it, a, k, n):
+        if len(a) == 1 and isinstance(a[0], TypeV):
+            return Const("<class '%s'>" % a[0].name)
+        return NotImplemented
+
+    def value(x):
+        return TupleV([Const(y) for y in x]) if isinstance(x, tuple) else Const(x)
+    pairs = [(1, 2), (2, 1), (2, 2), ('a', 'b'), ('b', 'a'), (1.5, 2), (2, 1.5), (3, 2.5), (True, 0.5), (0.5, True), (1, True), ((1, 2), (1, 3)), ('a', 1), (1, 'a'), (None, 1), (1, None), ((1,), 'x'), ('x', (1,)),
+             (1j, 2j), (None, None), (b'a', 'a'), ('a', b'a')]
+    for a, b in pairs:
+        it = Interp(repo, {'id': p_id, 'str': p_str}, max_paths=4, max_depth=40)
+        it.concrete_context = True
+        it.concrete_classes = {cname}
+        label = '%r < %r' % (a, b)
+        try:
+            ka = it.construct(TypeV(cname), [value(a)], {}, None)
+            kb = it.construct(TypeV(cname), [value(b)], {}, None)
+            lt = it.find_method(ci, '__lt__')
+            if lt is None:
+                facts.append(('defines-order', False, '%s does not define __lt__' % cname))
+                break
+            prs = it.explore(lt, [ka, kb], {})
+            prs2 = it.explore(lt, [kb, ka], {})
+        except (Undecided, PathLimit) as e:
+            und.append('%s: %s' % (label, e))
+            continue
+        if len(prs) != 1 or len(prs2) != 1:
+            und.append('%s: the comparison forks on constants' % label)
+            continue
+        r1, r2 = prs[0], prs2[0]
+        if r1.raised is not None or r2.raised is not None:
+            facts.append(('total-fallback[%s]' % label, False, 'comparing the keys of %r and %r raises %s: sorting a dict with such keys fails' % (
+                a, b, (r1.raised or r2.raised).what)))
+            continue
+        v1 = r1.value.v if isinstance(r1.value, Const) else None
+        v2 = r2.value.v if isinstance(r2.value, Const) else None
+        try:
+            nat = a < b
+            nat2 = b < a
+        except TypeError:
+            nat = nat2 = None
+        if nat is not None:
+            facts.append(('natural-order[%s]' % label, v1 is nat and v2 is nat2, 'key(%r) < key(%r) is %r where %r < %r is %r: comparable keys are not '
+                          'ordered by their own <' % (a, b, v1, a, b, nat)))
+        else:
+            ok = isinstance(v1, bool) and isinstance(v2, bool) and not (v1 and v2) and (type(a) is not type(b) or (not v1 and not v2))
+            facts.append(('total-fallback[%s]' % label, ok, 'key(%r) < key(%r) is %r and the reverse %r: the fallback for keys Python cannot order must be '
+                          'a consistent order by kind (both False for keys of one type, so that a stable sort keeps their order)' % (a, b, v1, v2)))
+    facts.append(('no-identity', not used_id, 'the sort key consults id() (line %s): the order of incomparable keys would depend on the allocator history'
+                  % used_id[:1]))
+    out = (facts, und)
+    _SORTKEY_CACHE.clear()
+    _SORTKEY_CACHE[key] = (repo, out)
+    return out
+
+
+def report_sortkey(repo, rep, rule, select=lambda label: True):
+    """records the selected facts of the sort-key model under ``rule``; returns the count"""
+    from engine import roles
+    ci = repo.module('prettyprinter').classes.get(roles.name(repo, 'sortable_cls'))
+    where = ci.where if ci is not None else 'prettyprinter/prettyprinter.py'
+    facts, und = sortkey_model(repo)
+    n = 0
+    for label, ok, detail in facts:
+        if not select(label):
+            continue
+        n += 1
+        rep.check(ok, rule, 'sort-key:' + label, where, 'holds on the interpreted sort key', detail, nontrivial=True)
+    for u in und[:3]:
+        n += 1
+        rep.undecided(rule, 'sort-key:interpretable', where, u)
+    return n
